@@ -444,6 +444,20 @@ func (p *c01) RunCase(ctx *runner.Ctx) runner.CaseResult {
 			}
 		default:
 			op = c01Op(spec, t, k, i)
+			if op.Kind == adapt.OpDelete && r.Intn(3) == 0 {
+				// a guarded delete whose condition names several attributes through placeholders: it deletes exactly when
+				// the stored item satisfies it (each placeholder stands for its own attribute)
+				pa := refmodel.Path{{Name: "a", Alias: "#pa"}}
+				pz := refmodel.Path{{Name: mon.Pick(r, []string{"zzq", "b", "n"}), Alias: "#pz"}}
+				pb := refmodel.Path{{Name: "l", Alias: "#pl"}}
+				cond := &refmodel.Cond{Op: "and", Kids: []*refmodel.Cond{
+					{Op: "exists", Args: []refmodel.Operand{{Kind: "path", Path: pa}}},
+					{Op: mon.Pick(r, []string{"notexists", "exists"}), Args: []refmodel.Operand{{Kind: "path", Path: pz}}}}}
+				if r.Intn(2) == 0 {
+					cond = &refmodel.Cond{Op: "or", Kids: []*refmodel.Cond{cond, {Op: "notexists", Args: []refmodel.Operand{{Kind: "path", Path: pb}}}}}
+				}
+				op = mon.WithCond(op, cond, val.Item{}, refmodel.RenderOpts{})
+			}
 			if op.Kind == adapt.OpGet && r.Intn(2) == 0 {
 				// a read that names the attributes it wants (names that begin alike - n / near, l / lg, a / #a - are
 				// different attributes; a projection never makes a stored item unreadable)
